@@ -11,7 +11,7 @@ import (
 
 func init() {
 	register("C20", propMeta{
-		Explanation: "E-LOCK. A flow-sensitive must-lockset is computed over the SSA of every repository function (entry lockset = intersection over call sites, container/heap and sync.Once callbacks modelled as calls, goroutine bodies/callbacks/interface-exposed methods start empty). O-1: every read and write of every field in the explicit guarded-by table (built by reading the anchors; ~60 rows: matching state, metrics, client map, session maps, traffic counters) happens under its protection - the named mutex (write mode for writes), sync/atomic only, or immutable after publication (writes only to a not-yet-published fresh object or in a listed start-up function); for 'deep' rows the map/slice/list behind the field as well. O-2: every Lock/RLock is released on all paths, no Unlock of a lock not held, no self-deadlock, and the acquired-while-holding graph is acyclic. O-3: a field accessed through sync/atomic is never accessed plainly, including by copying the struct through a value receiver. O-4: a byte slice sent through a turbotunnel packet queue (and so handed to another goroutine) is a private copy made by the sender, never the caller's buffer, which the caller goes on writing. An access outside its protection is a pair of conflicting accesses with no ordering synchronisation for some schedule, i.e. a data race; each rule is therefore a necessary condition of race freedom for the listed state. Added after the second seeding round: O-5 no store through a package-level variable of another module or the standard library outside package initialisation and main's direct start-up assignments (D20, D21: http.DefaultTransport configured in place); O-6 a goroutine body (go target plus its single-call-site helpers) stores to, or slices an array field of, a non-fresh object only if the field has a row in the table or some repository lock is held there (D22). Added after the third seeding round: O-1b no method of a struct that carries its own mutex has a value receiver; deep accesses (map, slice, pointee) through a local copy of a struct are judged like accesses through the original.",
+		Explanation: "E-LOCK. A flow-sensitive must-lockset is computed over the SSA of every repository function (entry lockset = intersection over call sites, container/heap and sync.Once callbacks modelled as calls, goroutine bodies/callbacks/interface-exposed methods start empty). O-1: every read and write of every field in the explicit guarded-by table (built by reading the anchors; ~60 rows: matching state, metrics, client map, session maps, traffic counters) happens under its protection - the named mutex (write mode for writes), sync/atomic only, or immutable after publication (writes only to a not-yet-published fresh object or in a listed start-up function); for 'deep' rows the map/slice/list behind the field as well. O-2: every Lock/RLock is released on all paths, no Unlock of a lock not held, no self-deadlock, and the acquired-while-holding graph is acyclic. O-3: a field accessed through sync/atomic is never accessed plainly, including by copying the struct through a value receiver. O-4: a byte slice sent through a turbotunnel packet queue (and so handed to another goroutine) is a private copy made by the sender, never the caller's buffer, which the caller goes on writing. An access outside its protection is a pair of conflicting accesses with no ordering synchronisation for some schedule, i.e. a data race; each rule is therefore a necessary condition of race freedom for the listed state. Added after the second seeding round: O-5 no store through a package-level variable of another module or the standard library outside package initialisation and main's direct start-up assignments (D20, D21: http.DefaultTransport configured in place); O-6 a goroutine body (go target plus its single-call-site helpers) stores to, or slices an array field of, a non-fresh object only if the field has a row in the table or some repository lock is held there (D22). Added after the third seeding round: O-1b no method of a struct that carries its own mutex has a value receiver; deep accesses (map, slice, pointee) through a local copy of a struct are judged like accesses through the original. Added after the fourth seeding round: O-7 a local variable captured by reference is not assigned by one goroutine body and used by another without a common mutex; a start-up write must precede every go statement of that function that receives the object; rows for Peers; a function value handed to a helper that only calls it synchronously inherits the helper's lockset; freshness is followed through a captured local pointer variable.",
 		NotDecided:  "races on state outside the table (third-party objects, local variables captured by several closures), happens-before through channels other than the immutable-after-publication class, instance confusion (locks are named by type and field, not by object).",
 		Assumptions: []string{"lock identity is (type, field): two instances of one struct are not distinguished", "start-up writes listed in the table happen before any concurrent reader exists (single-goroutine initialisation in main)", "dynamic calls neither acquire nor release repository locks"},
 	}, runC20)
@@ -43,6 +43,7 @@ func runC20(c *Ctx) {
 	c.checkCopyOnEnqueueFor("O-4 buffers crossing goroutines are private copies", senders)
 	c.checkForeignGlobalWrites("O-5 process-wide library objects are not modified", scope)
 	c.checkGoroutineFieldWrites("O-6 goroutine bodies modify only state with a protection row", scope)
+	c.checkCapturedCellRaces("O-7 a local variable is not written by one goroutine and used by another", scope)
 	if c.Thorough {
 		c.inferGuardCandidates(scope)
 	}
@@ -343,5 +344,200 @@ func (c *Ctx) checkGoroutineFieldWrites(rule string, scope []*ssa.Function) {
 	}
 	if bad == 0 {
 		c.ok(rule, "goroutine bodies store only to tabled fields, fresh objects, or under a lock", "-", fmt.Sprintf("%d goroutine-body functions, %d field stores/slices of non-fresh objects", len(bodies), nAcc))
+	}
+}
+
+// checkCapturedCellRaces: a local variable that closures capture by reference is
+// shared memory once two of those closures run as goroutines. If one goroutine
+// body (its nested literals included) assigns the variable and another goroutine
+// body started by the same function reads or assigns it - or the assigning body
+// is started in a loop - the accesses race unless one mutex is held at all of
+// them. (The starting function's own accesses are not judged: they are usually
+// ordered by a WaitGroup or a channel, which this rule does not model.)
+func (c *Ctx) checkCapturedCellRaces(rule string, scope []*ssa.Function) {
+	p := c.P
+	le := p.Locks()
+	nCells, bad := 0, 0
+	resolveCell := func(fv *ssa.FreeVar) *ssa.Alloc {
+		var cell ssa.Value = fv
+		for i := 0; i < 6; i++ {
+			f2, isFV := cell.(*ssa.FreeVar)
+			if !isFV {
+				break
+			}
+			b := freeVarBinding(f2)
+			if b == nil {
+				return nil
+			}
+			cell = b
+		}
+		al, _ := cell.(*ssa.Alloc)
+		return al
+	}
+	type acc struct {
+		in    ssa.Instruction
+		write bool
+	}
+	for _, fn := range scope {
+		if fn.Parent() != nil {
+			continue
+		}
+		// goroutine bodies started (anywhere below fn) from closures
+		type gbody struct {
+			g    *ssa.Go
+			body *ssa.Function
+		}
+		var bodies []gbody
+		var all []*ssa.Function
+		var collect func(f *ssa.Function)
+		collect = func(f *ssa.Function) {
+			all = append(all, f)
+			for _, a := range f.AnonFuncs {
+				collect(a)
+			}
+		}
+		collect(fn)
+		for _, f := range all {
+			for _, ci := range callsIn(f) {
+				if g, ok := ci.(*ssa.Go); ok {
+					if b := staticCallee(g); b != nil && b.Parent() != nil {
+						bodies = append(bodies, gbody{g, b})
+					}
+				}
+			}
+		}
+		if len(bodies) == 0 {
+			continue
+		}
+		// accesses per (cell, goroutine body)
+		type key struct {
+			cell *ssa.Alloc
+			b    int
+		}
+		accs := map[key][]acc{}
+		cells := map[*ssa.Alloc]bool{}
+		for bi, gb := range bodies {
+			var inBody []*ssa.Function
+			var coll func(f *ssa.Function)
+			coll = func(f *ssa.Function) {
+				inBody = append(inBody, f)
+				for _, a := range f.AnonFuncs {
+					// a nested literal that is itself started as a goroutine is a body of its own
+					isOwn := false
+					for _, o := range bodies {
+						if o.body == a {
+							isOwn = true
+						}
+					}
+					if !isOwn {
+						coll(a)
+					}
+				}
+			}
+			coll(gb.body)
+			for _, f := range inBody {
+				for _, fv := range f.FreeVars {
+					cell := resolveCell(fv)
+					if cell == nil || cell.Parent() == nil || fv.Referrers() == nil {
+						continue
+					}
+					// the cell must belong to fn or a literal enclosing the body (not to the body itself)
+					owner := cell.Parent()
+					inside := false
+					for _, x := range inBody {
+						if x == owner {
+							inside = true
+						}
+					}
+					if inside {
+						continue
+					}
+					for _, r := range *fv.Referrers() {
+						switch x := r.(type) {
+						case *ssa.Store:
+							if x.Addr == ssa.Value(fv) {
+								accs[key{cell, bi}] = append(accs[key{cell, bi}], acc{x, true})
+								cells[cell] = true
+							}
+						case *ssa.UnOp:
+							if x.Op == token.MUL {
+								accs[key{cell, bi}] = append(accs[key{cell, bi}], acc{x, false})
+								cells[cell] = true
+							}
+						}
+					}
+				}
+			}
+		}
+		for cell := range cells {
+			nCells++
+			var writers, users []int
+			for bi := range bodies {
+				as := accs[key{cell, bi}]
+				if len(as) == 0 {
+					continue
+				}
+				users = append(users, bi)
+				for _, a := range as {
+					if a.write {
+						writers = append(writers, bi)
+						break
+					}
+				}
+			}
+			if len(writers) == 0 {
+				continue
+			}
+			race := false
+			var w, u int
+			for _, wi := range writers {
+				for _, ui := range users {
+					if ui != wi {
+						race, w, u = true, wi, ui
+					}
+				}
+				if inCycle(bodies[wi].g.Block()) {
+					race, w, u = true, wi, wi
+				}
+			}
+			if !race {
+				continue
+			}
+			// one mutex held at every access of the two bodies?
+			common := map[string]bool{}
+			first := true
+			for _, bi := range []int{w, u} {
+				for _, a := range accs[key{cell, bi}] {
+					held := map[string]bool{}
+					for _, k := range le.HeldKeys(a.in) {
+						held[k] = true
+					}
+					if first {
+						common, first = held, false
+						continue
+					}
+					for k := range common {
+						if !held[k] {
+							delete(common, k)
+						}
+					}
+				}
+			}
+			if len(common) > 0 {
+				continue
+			}
+			bad++
+			wa := accs[key{cell, w}][0]
+			for _, a := range accs[key{cell, w}] {
+				if a.write {
+					wa = a
+				}
+			}
+			c.viol(rule, fmt.Sprintf("%s: variable %s is assigned in the goroutine started at %s", p.FnName(fn), cell.Comment, p.instrPos(bodies[w].g)), p.instrPos(wa.in),
+				fmt.Sprintf("the variable is captured by reference; the goroutine started at %s also uses it, with no common mutex: a data race (for example two loops both assigning the enclosing function's err)", p.instrPos(bodies[u].g)))
+		}
+	}
+	if bad == 0 {
+		c.ok(rule, "variables captured by goroutine bodies", "-", fmt.Sprintf("%d captured variable(s) used by goroutine bodies; none assigned by one and used by another", nCells))
 	}
 }
